@@ -45,7 +45,7 @@ class Pos(int, utype.Rule):
     opt: int = utype.Field(required=False)
     pos: Pos = 1
     name: str = utype.Field(max_length=4, alias='Name', default='n')
-    imm: int = utype.Field(immutable=True, default=5)
+{imm}
     ci: int = utype.Field(case_insensitive=True, default=0, alias_from=['CiAlt'])
     hidden: int = utype.Field(no_output=True, default=7)
     ex: int = utype.Field(on_error='exclude', required=False)
@@ -114,8 +114,16 @@ def _types():
         _TAGS[0] = Rule.parse_annotation(typing.List[Pos])
 
 
-def declare(base, options, inherit=False):
+IMM_FORMS = {   # three documented ways to say "this field cannot be reassigned or deleted"
+    "field": "    imm: int = utype.Field(immutable=True, default=5)",
+    "final": "    imm: Final[int] = 5",
+    "final_field": "    imm: Final[int] = utype.Field(default=5, ge=0)",
+}
+
+
+def declare(base, options, inherit=False, imm="field"):
     _types()
+    SRC_ = SRC.replace("{imm}", IMM_FORMS[imm])
     _n[0] += 1
     name = f"vf_c07_m{_n[0]}"
     mod = types.ModuleType(name)
@@ -123,12 +131,12 @@ def declare(base, options, inherit=False):
     o = ", ".join(f"{k}={'int' if v == 'int' else repr(v)}" for k, v in sorted((options or {}).items()))
     opt_line = f"    __options__ = utype.Options({o})\n" if o else ""
     if base == "deco":
-        src = SRC.format(deco=f"@utype.dataclass(set_class_properties=True{', options=utype.Options(' + o + ')' if o else ''})\n", base="object", options="", cname="M", sub="")
+        src = SRC_.format(deco=f"@utype.dataclass(set_class_properties=True{', options=utype.Options(' + o + ')' if o else ''})\n", base="object", options="", cname="M", sub="")
     elif inherit:
         # the fields live in a base class; the subclass brings the options and re-annotates one field
-        src = SRC.format(deco="", base=f"utype.{base}", options="", cname="Base", sub=SUB.format(options=opt_line))
+        src = SRC_.format(deco="", base=f"utype.{base}", options="", cname="Base", sub=SUB.format(options=opt_line))
     else:
-        src = SRC.format(deco="", base=f"utype.{base}", options=opt_line, cname="M", sub="")
+        src = SRC_.format(deco="", base=f"utype.{base}", options=opt_line, cname="M", sub="")
     exec(compile(src, name, "exec"), mod.__dict__)
     return mod, mod.M
 
@@ -322,7 +330,9 @@ def run_case(case):
             raise HarnessError("bad option")
     is_schema = base == "Schema"
     inherit = bool(case.get("inherit")) and base != "deco"
-    mod, M = declare(base, options, inherit)
+    if case.get("imm", "field") not in IMM_FORMS:
+        raise HarnessError("bad imm form")
+    mod, M = declare(base, options, inherit, case.get("imm", "field"))
     try:
         data = {k: codec.decode(v) for k, v in init}
         made = oracle.outcome(lambda: M(**data))
@@ -448,6 +458,9 @@ def cases(draw):
         init.append(["zz", draw(st.sampled_from([1, "7"]))])
     ops = draw(st.lists(op_specs(base == "Schema"), min_size=1, max_size=12))
     case = {"base": base, "options": options, "init": init, "ops": ops}
+    imm = draw(st.sampled_from(["field", "field", "final", "final_field"]))
+    if imm != "field":
+        case["imm"] = imm
     if base != "deco" and draw(st.sampled_from([False, False, True])):
         case["inherit"] = True
     return case
@@ -458,6 +471,7 @@ def campaign(ctx):
         r = run_case(case)
         ctx.label(f"status_{r['status']}")
         ctx.label(f"base_{case['base']}")
+        ctx.label(f"immutable_declared_as_{case.get('imm', 'field')}")
         if r["status"] == "ok":
             for op in case["ops"]:
                 ctx.label(f"op_{op['op']}")
